@@ -234,16 +234,19 @@ def window(rec, pos, sigma):
     return c - 30.0, c + 31.0, 3
 
 
-def run_model(rec, pol, lo, hi, bins):
+def run_model(rec, pol, lo, hi, bins, base=0.0):
+    """what the model adds to a spectrum holding `base` in every bin (other lines were added before)"""
     from raysect.core import Point3D, Vector3D
     from raysect.optical import Spectrum
     obj, beam = build(rec, pol)
     sp = Spectrum(lo, hi, bins)
+    if base:
+        sp.samples[:] = base
     if beam is None:
         out = obj.add_line(R0, Point3D(0.1, 0.2, 0.3), Vector3D(*view_of(rec)) * float(rec.get("dir_length", 1)), sp)
     else:
         out = obj.add_line(R0, Point3D(0, 0, 0.5), Point3D(0.1, 0.2, 0.3), Vector3D(0, 0, 1), Vector3D(1, 0, 0), sp)
-    return [float(x) for x in out.samples]
+    return [float(x) - base for x in out.samples]
 
 
 def replay_any(rec, ctx):
@@ -269,6 +272,11 @@ def replay(rec, ctx):
     except Exception as ex:          # noqa: BLE001
         bad(f"raised-{type(ex).__name__}", repr(ex)[:200])
         return viol
+    # the line is *added*: onto a spectrum that already holds something the increase is the same
+    lvl = max(max(got), 1e-30) * 0.5
+    got_b = run_model(rec, None, lo, hi, bins, base=lvl)
+    if any(abs(a - b_) > 1e-9 * max(lvl, abs(b_)) for a, b_ in zip(got_b, got)):
+        bad("does-not-add-to-the-spectrum-it-is-given", "the increase on a pre-filled spectrum differs from the line added to an empty one")
     comps = rec["comps"]
     if not comps:
         if any(x != 0.0 for x in got):
